@@ -94,9 +94,10 @@ type txSpec struct {
 	ReplayOther bool   `json:"replayed_by_other_account,omitempty"`
 	ReplayOfAcc bool   `json:"replayed_request_was_accepted,omitempty"`
 
-	txdata []byte
-	from   []byte
-	raw    []byte
+	txdata  []byte
+	from    []byte
+	raw     []byte
+	entries []oSig // the signature list of this request
 }
 
 type histTx struct {
@@ -308,7 +309,7 @@ func otherMsg(msg []byte) []byte {
 
 var sufficientShapes = []string{"all", "min", "min", "min+noise", "min+dup"}
 var insufficientShapes = []string{"under", "under", "under+dup", "under+dup", "under+dup", "under+zero", "under+zero", "under+zero", "under+foreign",
-	"under+wrongmsg", "under+truncsig", "under+longsig", "under+trunckey", "under+longkey", "wrongmsg-all", "none", "random"}
+	"under+wrongmsg", "under+truncsig", "under+longsig", "under+trunckey", "under+longkey", "wrongmsg-all", "none", "random", "borrowed", "borrowed"}
 
 // entries builds the signature list of the given shape over msg.
 func (g *gen) entries(shape string, inforce map[string]int64, msg []byte) ([]oSig, string) {
@@ -730,7 +731,27 @@ func (g *gen) genTx2(inforce map[string]int64, plan string, s *txSpec) *txSpec {
 	if g.f != nil && g.f.shape != "" {
 		shape = g.f.shape
 	}
-	entries, actual := g.entries(shape, inforce, msg)
+	var entries []oSig
+	actual := shape
+	if shape == "borrowed" {
+		// the complete signature list of an earlier accepted request (genuine signatures of the
+		// validators, over that request's message) under this, different request
+		var cands []*histTx
+		for _, h := range g.hist {
+			if h.accepted && len(h.spec.entries) > 0 && h.spec.Shape != "borrowed" {
+				cands = append(cands, h)
+			}
+		}
+		if len(cands) == 0 {
+			shape = "wrongmsg-all"
+		} else {
+			entries = append([]oSig{}, cands[g.rng.Intn(len(cands))].spec.entries...)
+		}
+	}
+	if shape != "borrowed" {
+		entries, actual = g.entries(shape, inforce, msg)
+	}
+	s.entries = entries
 	s.Shape = actual
 	s.txdata = buildRequest(cmdType, msg, selfSign, entries, g.fixed)
 	g.envelope(s)
